@@ -228,6 +228,8 @@ def _gen_leaf(rng, cfg, i, T, creatable=False, syncable=False):
             j = rng.randint(i + 1, min(T - 1, i + 3))
             nargs = rng.randint(0, 2) if cfg["p_ref"] > 0 else 0
             return ["call", j, [rng.randint(0, 5) for _ in range(nargs)]]
+        if cfg.get("no_items"):
+            return ["const", rng.randint(0, 9)]
         return ["item", rng.randint(0, cfg["kinds"] - 1), rng.randint(0, cfg["keys"] - 1)]
     r -= cfg["p_call"]
     if r < cfg["p_item"]:
